@@ -171,6 +171,25 @@ CORPUS = [
       ((9, 0, 0), 'm2_-7.9'), ((0, 4, 0), 'm3_-2.7'), ((0, -4, 0), 'm3_-2.75'),
       ((0, 0, 5), 'm0')],
      {'m1_-1.0', 'm2_-7.8', 'm2_-7.9', 'm3_-2.7', 'm3_-2.75'}),
+    # a container with TRCL (and no fill transformation): the fillers move
+    # with the container; run in the four inlining modes below (VARIANTS)
+    ('container-trcl', '''corpus container trcl
+1 0 -1 fill=1 trcl=(6 0 0) imp:n=1
+2 0 -1 fill=1 imp:n=1
+3 0 1 4 -9 imp:n=1
+4 0 9 imp:n=0
+5 1 -1.0 -3 u=1 imp:n=1
+6 2 -7.8 3 u=1 imp:n=1
+
+1 so 2
+3 px 0
+4 s 6 0 0 2
+9 so 20
+
+''' + MATS, [],
+     [((5.5, 0, 0), 'm1_-1.0'), ((6.5, 0, 0), 'm2_-7.8'),
+      ((-0.5, 0, 0), 'm1_-1.0'), ((0.5, 0, 0), 'm2_-7.8'), ((0.3, 5, 0), 'm0')],
+     {'m1_-1.0', 'm2_-7.8'}),
     # the two spellings repaired in /repo 6d1467b
     ('repaired-spellings', '''corpus repaired
 1 1 -1.0 -1 imp:n=1
@@ -186,3 +205,7 @@ CORPUS = [
      [((0, 0, 0), 'm1_-1.0'), ((1.5, 0, 0), 'm1_-1.0'), ((2.5, 0, 0), 'm2_4.0e0')],
      {'m1_-1.0', 'm2_4.0e0'}),
 ]
+
+# every corpus deck is also converted with these extra command-line options
+VARIANTS = [[], ['--always-inline-filling'], ['--always-inline-filled'],
+            ['--always-inline-filling', '--always-inline-filled']]
